@@ -503,7 +503,10 @@ def main(argv):
     t0 = time.time()
     import glob
     for old in glob.glob(os.path.join(VERIF, "out", "replays" + SCR, prop + "-*.json")):
-        os.remove(old)
+        # replays of earlier runs are kept (for diagnosis), out of the way of this run's
+        keep = os.path.join(VERIF, "out", "replays-old")
+        os.makedirs(keep, exist_ok=True)
+        os.replace(old, os.path.join(keep, "%d-%s" % (int(os.path.getmtime(old)), os.path.basename(old))))
     conf = load_conf(prop)
     outdir = os.path.join(VERIF, "out", prop + SCR); os.makedirs(outdir, exist_ok=True)
     findings = load_findings()
